@@ -30,3 +30,5 @@ def run(prog, rep):
     _rn.run_cstr_args(prog, rep)
     from ..rules import r_key as _rkx
     _rkx.run_handles_only(prog, rep)
+    from ..rules import r_io as _rio4
+    _rio4.run_reclaim(prog, rep)
